@@ -20,6 +20,7 @@ N4 == Q(<<-7, -4, 0, 2>>)
 N5 == Q(<<-8, -5, -4, 0, 6>>)
 N6 == Q(<<-6, -4, 0, 2, 6, 8>>)
 F5 == <<R(0, 1), R(1, 8), R(1, 2), R(1, 1), R(3, 1)>>
+Z4 == Q(<<-3, -1, 1, 3>>)                 \* an interval centred exactly at the origin (midpoint 0)
 Off3 == Q(<<20, 22, 26>>)
 Off4 == Q(<<20, 22, 26, 27>>)
 
